@@ -10,16 +10,25 @@ def components():
 
 
 def oracles_():
-    return [oracles.StdReaders()]
+    return [comps.XmlEscStd(), oracles.StdReaders()]
 
 
 MANIFEST = {
     "text": "Coq theorems: an independent RFC 8259 string reader recovers every valid UTF-8 string from json_print_string's output "
-            "(C12_json_string_std), an independent XML 1.0 character-data reader (with line-end and attribute-value normalisation) "
-            "recovers it from lyxml_dump_text's output under exactly the hypotheses the proof forces (no CR; no TAB/LF/CR in "
-            "attributes), with refutation witnesses without them. Printer models tied by scraped tables (T1) and differential runs "
-            "(T2); documents printed by libyang are read by expat and Python json and compared with the instance (search).",
+            "(C12_json_string_std); an independent XML 1.0 character-data / attribute-value reader (strict UTF-8 decoding, Char "
+            "check, predefined entities and character references, line-end handling 2.11, attribute-value normalisation 3.3.3) "
+            "recovers every string of XML Chars - CR, TAB and LF included - from lyxml_dump_text's output, as element content "
+            "(C12_xml_text_std) and as attribute value (C12_xml_attr_std), with no further hypothesis: since commits 6fdbff2 / "
+            "47fa563 the printer writes CR as &#xD; and, in attributes, TAB/LF as &#x9;/&#xA; (the former findings xml-cr and "
+            "xml-attr-ws and their _refuted theorems are gone; positive examples with CR/TAB/LF instead). The Char hypothesis is "
+            "necessary (C12_xml_text_std_nonchar_refuted: a non-Char such as U+0001 is written raw). Printer models tied by scraped "
+            "tables (T1: the scraper understands exactly the present shape of lyxml_dump_text's switch and fails loudly "
+            "otherwise) and differential runs (T2); lyxml_dump_text's output for CR/TAB/LF-rich strings is read by expat at "
+            "function level, and whole documents printed by libyang are read by expat and Python json and compared with the "
+            "instance (search). A deviation of either is a plain violation.",
     "note": "Modelled C: lyxml_dump_text, json_print_string (+ lexers). Document-level structure (namespaces, member qualification, "
-            "metadata objects) is only checked by the expat/json oracle on generated instances, which is testing.",
-    "technique": "Coq proof (independent standard readers vs printer models) + correspondence + expat/json oracle",
+            "metadata objects) is only checked by the expat/json oracle on generated instances, which is testing. The instance "
+            "generator puts no CR into metadata values (TAB/LF it does); CR in attribute values is covered by the theorem, T2 and "
+            "the function-level expat oracle only.",
+    "technique": "Coq proof (independent standard readers vs printer models) + correspondence + expat/json oracles",
 }
